@@ -22,12 +22,24 @@ type RLocker interface {
 
 func (s *Sim) lockLoop(t *Task, site int, m any, try func() bool, write bool) {
 	s.pre(t, site)
+	pending := false
 	for {
 		if try() {
 			s.mu.Lock()
 			t.held = append(t.held, heldLock{m, write})
+			if pending {
+				s.pendingWriters[m]--
+			}
 			s.mu.Unlock()
 			return
+		}
+		if write && !pending {
+			// a writer that found the lock taken is, from now on, "blocked in
+			// Lock()": like the real sync.RWMutex, new readers must wait behind it
+			pending = true
+			s.mu.Lock()
+			s.pendingWriters[m]++
+			s.mu.Unlock()
 		}
 		if t.goid == s.rootG {
 			panic("simrt: the scheduler goroutine would block on a lock held by a parked task")
@@ -97,7 +109,15 @@ func RLock(site int, m RLocker) {
 		m.RLock()
 		return
 	}
-	s.lockLoop(s.me(site), site, m, m.TryRLock, false)
+	s.lockLoop(s.me(site), site, m, func() bool {
+		s.mu.Lock()
+		w := s.pendingWriters[m] > 0
+		s.mu.Unlock()
+		if w {
+			return false // writer preference: a pending Lock() blocks new RLock() calls, re-entrant ones included
+		}
+		return m.TryRLock()
+	}, false)
 }
 
 // RUnlock replaces m.RUnlock().
